@@ -151,6 +151,7 @@ func c01Recursion(c *core.Check) {
 		ok, why := core.DeleteBeforeRecursion(p, ie, "href")
 		r3.Cond(ok, "svg.(*svgContext).inheritElement | inheritElement(parent)", p.Pos(ie.Pos()), why, why+": two gradients referencing each other through href recurse until the stack is exhausted")
 	}
+	c18DrawCycles(c, r3)
 	if rc := p.Lookup("css/counters.CounterStyle.resolveCounter"); rc == nil {
 		r3.Anchor("css/counters.CounterStyle.resolveCounter")
 	} else {
